@@ -51,7 +51,7 @@ func buildNilModel(w *World) *nilModel {
 		if sig.Params().Len() != 1 || sig.Results().Len() != 1 || !isBasicKind(sig.Results().At(0).Type(), types.Bool) || len(f.Decl.Body.List) == 0 {
 			continue
 		}
-		if assertionValidator(info, f) {
+		if assertionValidator(info, f) || nm.trueOnlyIfNonNil(info, w, f) {
 			nm.validators[f.Obj] = true
 			continue
 		}
@@ -187,6 +187,56 @@ func assertionValidator(info *types.Info, f *FuncInfo) bool {
 	}
 	tv := info.Types[ret.Results[0]]
 	return tv.Value != nil && tv.Value.ExactString() == "false"
+}
+
+// trueOnlyIfNonNil: a func(x) bool without named result in which every return
+// either yields the constant false, or sits where x is known to be non-nil
+// (under a successful type assertion of x, behind `x != nil`), or returns a
+// conjunction with the conjunct `x != nil`: it returns true only if x != nil.
+func (nm *nilModel) trueOnlyIfNonNil(info *types.Info, w *World, f *FuncInfo) bool {
+	sig := f.Obj.Type().(*types.Signature)
+	if sig.Results().At(0).Name() != "" {
+		return false
+	}
+	param := sig.Params().At(0)
+	var use ast.Expr
+	ast.Inspect(f.Decl.Body, func(n ast.Node) bool {
+		if id, ok := n.(*ast.Ident); ok && use == nil && info.Uses[id] == types.Object(param) {
+			use = id
+		}
+		return true
+	})
+	if use == nil {
+		return false
+	}
+	rets := returnsIn(f.Decl.Body)
+	if len(rets) == 0 {
+		return false
+	}
+	for _, ret := range rets {
+		if len(ret.Results) != 1 {
+			return false
+		}
+		e := ret.Results[0]
+		if tv := info.Types[e]; tv.Value != nil && tv.Value.ExactString() == "false" {
+			continue
+		}
+		if nm.guarded(info, w, use, ret) {
+			continue
+		}
+		ok := false
+		for _, cj := range conjuncts(e) {
+			if be, isBE := unparen(cj).(*ast.BinaryExpr); isBE && be.Op == token.NEQ {
+				if (isNilIdent(info, be.Y) && objOf(info, be.X) == types.Object(param)) || (isNilIdent(info, be.X) && objOf(info, be.Y) == types.Object(param)) {
+					ok = true
+				}
+			}
+		}
+		if !ok {
+			return false
+		}
+	}
+	return true
 }
 
 // terminates: the statement list ends by leaving the enclosing flow.
